@@ -354,7 +354,7 @@ func buildExpressionEx(input map[string]interface{}, depth int) (string, bool, e
 				return strconv.Quote(valueType), true, nil
 			case float64:
 
-				return strconv.FormatFloat(valueType, 'f', -1, 64), true, nil
+				return formatNumber(valueType), true, nil
 			case bool:
 				if valueType {
 
@@ -372,6 +372,18 @@ func buildExpressionEx(input map[string]interface{}, depth int) (string, bool, e
 	}
 
 	return "", false, fmt.Errorf("boolean expression cannot be empty")
+}
+
+// formatNumber prints a JSON number as a GRL literal that denotes the same value: plain decimal notation, so that
+// an integer stays an integer literal (fmt.Sprint turns 1000000 into the float literal 1e+06), and with a
+// fractional part when the value is integral but beyond int64, where an integer literal would not build.
+func formatNumber(v float64) string {
+	s := strconv.FormatFloat(v, 'f', -1, 64)
+	if (v >= 9223372036854775808.0 || v < -9223372036854775808.0) && !strings.Contains(s, ".") {
+		s += ".0"
+	}
+
+	return s
 }
 
 func buildCompoundOperator(o interface{}, depth int, operator string) (string, bool, error) {
@@ -446,7 +458,7 @@ func parseCallOperand(o interface{}) (string, error) {
 		return operandType, nil
 	case float64:
 
-		return fmt.Sprint(operandType), nil
+		return formatNumber(operandType), nil
 	case bool:
 		if operandType {
 
@@ -515,7 +527,7 @@ func parseOperand(o interface{}, noWrap bool, negation bool) (string, error) {
 		return operandType, nil
 	case float64:
 
-		return fmt.Sprint(operandType), nil
+		return formatNumber(operandType), nil
 	case bool:
 
 		if operandType {
